@@ -346,3 +346,14 @@ func repoFrame() string {
 	}
 	return "unknown"
 }
+
+// Known reports whether a root-cause class is listed as an open known finding
+// (VERIF_KNOWN is filled by the driver from KNOWN_FINDINGS.txt).
+func Known(class string) bool {
+	for _, k := range strings.Split(os.Getenv("VERIF_KNOWN"), ",") {
+		if k != "" && k == class {
+			return true
+		}
+	}
+	return false
+}
